@@ -714,3 +714,25 @@ func (w *World) SyncParents(parentKey string) map[syncID]Object {
 	}
 	return out
 }
+
+// DiscoveryOutages offers the start and the end of an outage of one group-version's
+// discovery document (the process is started with a short discovery refresh period,
+// so its resource map loses and regains the group-version while it runs).
+func DiscoveryOutages(w *World, b *EnvBudget, gvs []string) []EnvOp {
+	var ops []EnvOp
+	for _, gv := range gvs {
+		gv := gv
+		if w.DiscoveryDown[gv] {
+			ops = append(ops, EnvOp{"discovery-back " + gv, func(w *World) { delete(w.DiscoveryDown, gv) }})
+		} else if b.Left > 0 {
+			ops = append(ops, EnvOp{"discovery-down " + gv, func(w *World) {
+				b.take()
+				if w.DiscoveryDown == nil {
+					w.DiscoveryDown = map[string]bool{}
+				}
+				w.DiscoveryDown[gv] = true
+			}})
+		}
+	}
+	return ops
+}
